@@ -186,9 +186,8 @@ def divLimbLoopRev (rc : Reciprocal) : List Nat → Nat → List Nat × Nat
      (divLimbLoopRev rc us (div2by1 r u rc).2).2)
 
 /-- the remainder-only loop of `rem_limb_with_reciprocal`; input limbs most significant first. -/
-def remLimbLoopRev (rc : Reciprocal) : List Nat → Nat → Nat
-  | [], r => r
-  | u :: us, r => remLimbLoopRev rc us (div2by1 r u rc).2
+def remLimbLoopRev (rc : Reciprocal) (us : List Nat) (r : Nat) : Nat :=
+  us.foldl (fun r u => (div2by1 r u rc).2) r
 
 /-- `div_rem_limb_with_reciprocal(u, reciprocal)` (fixed and boxed: same loop). -/
 def divRemLimbWithReciprocal (u : List Nat) (rc : Reciprocal) : List Nat × Nat :=
